@@ -23,6 +23,9 @@ def check(res):
     for l in lines:
         w = l.split()
         name = w[1]
+        if name == "exception":
+            viol("before-main:exception", "a Lexicon used by the initializer of a namespace-scope object (before main) throws: " + l, l)
+            continue
         d = dict(x.split("=", 1) for x in w[2:] if "=" in x)
         # multi-word spellings ("signed char") contain spaces: re-parse spelled=
         if " spelled=" in l:
@@ -83,7 +86,8 @@ def check(res):
                       {"theorem_file": "Properties_C13.v", "error": coq_error_excerpt(out, "Properties_C13.v")}, no_input=True)
     res.coverage.update({
         "evaluations": nfacts + stt["n"], "distinct_nontrivial": len(lines) + stt.get("classes", 0),
-        "rule": "26 built-in accessors, 5 symbolic constants, 2 linkages on three Lexicon instances (two alive at once, one created after the first "
+        "rule": "26 built-in accessors, 5 symbolic constants, 2 linkages on a Lexicon used BEFORE main() by the initializer of a namespace-scope object "
+                "(translation unit linked before the library) and on three Lexicon instances in main() (two alive at once, one created after the first "
                 "was destroyed): spelling, expr(), type(), transfer(), category, pairwise distinctness, identity across instances, and every public "
                 "route from the spelling (get_identifier by view and by String -> get_as_type; get_linkage by view and by String; get_label; "
                 "get_decltype); plus the same routes and every reserved word with near misses through the request scripts against the model",
